@@ -7,6 +7,7 @@ package PKGNAME
 // and at the reply write (buffer locked). Oracle: invariants over the subject's ordered frames.
 
 import (
+	"sync"
 	"sync/atomic"
 	"fmt"
 	"os"
@@ -21,11 +22,12 @@ import (
 
 type vfC01Step struct {
 	Kind    int // 0 publish, 1 release held, 2 subscribe, 3 release gate, 4 unsubscribe, 5 advance, 6 remove history, 7 position check (advance 45s)
-	Fault   int // publish: 0 deliver, 1 hold, 2 drop, 3 dup
+	Fault   int // publish: 0 deliver, 1 hold, 2 drop, 3 dup, 4 deliver + hold a second copy
 	Tags    map[string]string
 	Idx     int
 	Recover bool
-	OffPick int
+	OffPick int // >= 0: offset picked modulo top+3; -1: the position a protocol-following client holds; -2: top - OffBack
+	OffBack int
 	Epoch   int // 0 current known, 1 stale/random, 2 empty
 	GateH   bool
 	GateW   bool
@@ -51,11 +53,15 @@ type vfC01Case struct {
 func (s vfC01Step) String() string {
 	switch s.Kind {
 	case 0:
-		return fmt.Sprintf("pub(%s %s)", []string{"deliver", "hold", "drop", "dup"}[s.Fault], vfTagsStr(s.Tags))
+		return fmt.Sprintf("pub(%s %s)", []string{"deliver", "hold", "drop", "dup", "dup+hold"}[s.Fault], vfTagsStr(s.Tags))
 	case 1:
 		return fmt.Sprintf("releaseHeld(%d)", s.Idx)
 	case 2:
-		return fmt.Sprintf("subscribe(recover=%v offPick=%d epoch=%d gateAfterHistory=%v gateWrite=%v gatePresence=%v)", s.Recover, s.OffPick, s.Epoch, s.GateH, s.GateW, s.GateP)
+		op := fmt.Sprint(s.OffPick)
+		if s.OffPick == -2 {
+			op = fmt.Sprintf("top-%d", s.OffBack)
+		}
+		return fmt.Sprintf("subscribe(recover=%v offPick=%s epoch=%d gateAfterHistory=%v gateWrite=%v gatePresence=%v)", s.Recover, op, s.Epoch, s.GateH, s.GateW, s.GateP)
 	case 3:
 		return "releaseGate"
 	case 4:
@@ -93,12 +99,53 @@ func vfC01Gen(rt *rapid.T) vfC01Case {
 	c.MaxLagSec = rapid.SampledFrom([]int{0, 0, 3}).Draw(rt, "lag")
 	c.PrePubs = rapid.IntRange(0, 5).Draw(rt, "prepubs")
 	n := rapid.IntRange(3, 28).Draw(rt, "nsteps")
+	tags := func() map[string]string {
+		if c.ServerTF != nil || c.ClientTF != nil {
+			return vfTagsGen(rt, "tags")
+		}
+		return nil
+	}
 	for i := 0; i < n; i++ {
+		if i > 0 && rapid.IntRange(0, 7).Draw(rt, "phrase") == 0 {
+			// Correlated phrase around one subscribe window: [a publication whose second copy is held] [unsubscribe]
+			// subscribe(recover from top-d, parked after its history read) publications with a fault pattern
+			// [release a held delivery] release the gate [more publications] [release a held delivery].
+			if rapid.Bool().Draw(rt, "phPre") {
+				c.Steps = append(c.Steps, vfC01Step{Kind: 0, Fault: rapid.SampledFrom([]int{4, 4, 1}).Draw(rt, "phPreFault"), Tags: tags()})
+			}
+			if rapid.Bool().Draw(rt, "phUnsub") {
+				c.Steps = append(c.Steps, vfC01Step{Kind: 4})
+			}
+			c.Steps = append(c.Steps, vfC01Step{Kind: 2, Recover: rapid.IntRange(0, 4).Draw(rt, "phRecover") > 0, OffPick: -2,
+				OffBack: rapid.SampledFrom([]int{0, 0, 0, 1, 2, 3}).Draw(rt, "phBack"), GateH: true})
+			if rapid.IntRange(0, 2).Draw(rt, "phRelHeld0") == 0 {
+				c.Steps = append(c.Steps, vfC01Step{Kind: 1, Idx: rapid.IntRange(0, 3).Draw(rt, "phIdx0")})
+			}
+			np := rapid.IntRange(0, 4).Draw(rt, "phPubs")
+			for j := 0; j < np; j++ {
+				f := 0
+				if j == 0 || rapid.IntRange(0, 3).Draw(rt, "phFaulty") == 0 {
+					f = rapid.SampledFrom([]int{0, 2, 2, 1, 3, 4, 4}).Draw(rt, "phFault")
+				}
+				c.Steps = append(c.Steps, vfC01Step{Kind: 0, Fault: f, Tags: tags()})
+			}
+			if rapid.IntRange(0, 2).Draw(rt, "phRelHeld1") == 0 {
+				c.Steps = append(c.Steps, vfC01Step{Kind: 1, Idx: rapid.IntRange(0, 3).Draw(rt, "phIdx1")})
+			}
+			c.Steps = append(c.Steps, vfC01Step{Kind: 3})
+			for j, na := 0, rapid.IntRange(0, 2).Draw(rt, "phAfter"); j < na; j++ {
+				c.Steps = append(c.Steps, vfC01Step{Kind: 0, Fault: rapid.SampledFrom([]int{0, 0, 0, 2, 4}).Draw(rt, "phAfterFault"), Tags: tags()})
+			}
+			if rapid.Bool().Draw(rt, "phRelHeld2") {
+				c.Steps = append(c.Steps, vfC01Step{Kind: 1, Idx: rapid.IntRange(0, 3).Draw(rt, "phIdx2")})
+			}
+			continue
+		}
 		k := rapid.SampledFrom([]int{0, 0, 0, 0, 0, 0, 1, 1, 2, 2, 3, 3, 4, 5, 5, 6, 7}).Draw(rt, "kind")
 		s := vfC01Step{Kind: k}
 		switch k {
 		case 0:
-			s.Fault = rapid.SampledFrom([]int{0, 0, 0, 0, 0, 0, 0, 0, 0, 0, 1, 1, 2, 3}).Draw(rt, "fault")
+			s.Fault = rapid.SampledFrom([]int{0, 0, 0, 0, 0, 0, 0, 0, 0, 0, 1, 1, 2, 3, 4}).Draw(rt, "fault")
 			if c.ServerTF != nil || c.ClientTF != nil {
 				s.Tags = vfTagsGen(rt, "tags")
 			}
@@ -203,7 +250,7 @@ func vfC01Run(t *testing.T, cs vfC01Case, out *vfC01Out, isKnown func(string) bo
 		var lastAttemptP **vfC01SubAttempt
 		inWriteWindow := false
 		faults, bufferedDuringSub, trimOrReset := 0, 0, false
-		faultOf := func(i int) vfFault { return []vfFault{vfDeliver, vfHold, vfDrop, vfDup}[i] }
+		faultOf := func(i int) vfFault { return []vfFault{vfDeliver, vfHold, vfDrop, vfDup, vfDupHold}[i] }
 		publish := func(f vfFault, tags map[string]string) string {
 			counter++
 			data := fmt.Sprintf(`{"n":%d}`, counter)
@@ -239,6 +286,29 @@ func vfC01Run(t *testing.T, cs vfC01Case, out *vfC01Out, isKnown func(string) bo
 		}
 
 		conn := w.NewConn(vfConnCfg{Name: "s", User: "u", Proto: cs.Proto})
+		// log of what the PUB/SUB layer actually handed to this node (after faults), with the number of frames the
+		// subject had been sent at that moment
+		type nodeDelivery struct {
+			off      uint64
+			epoch    string
+			frames   int
+			inflight bool // a subscribe was parked at a gate / in its reply write
+			lagMs    int64
+		}
+		var delMu sync.Mutex
+		var deliveries []nodeDelivery
+		w.broker.OnDeliver = func(d vfDelivery) {
+			if d.Kind != "pub" || d.Ch != ch || d.Pub == nil {
+				return
+			}
+			nd := nodeDelivery{off: d.Pub.Offset, epoch: d.SP.Epoch, frames: len(conn.Frames()), inflight: len(w.Gates.AnyWaiting()) > 0 || inWriteWindow}
+			if d.Pub.Time > 0 {
+				nd.lagMs = time.Now().UnixMilli() - d.Pub.Time
+			}
+			delMu.Lock()
+			deliveries = append(deliveries, nd)
+			delMu.Unlock()
+		}
 		attempts := map[uint32]*vfC01SubAttempt{}
 		var serverAttempts []*vfC01SubAttempt // in order (modes 1,2): matched with subscribe pushes / connect reply
 		var lastAttempt *vfC01SubAttempt
@@ -278,13 +348,21 @@ func vfC01Run(t *testing.T, cs vfC01Case, out *vfC01Out, isKnown func(string) bo
 		mkAttempt := func(s vfC01Step) *vfC01SubAttempt {
 			a := &vfC01SubAttempt{recover: s.Recover && cs.Recovery, epochAtStart: curEpoch}
 			lastAttempt = a
-			if a.recover && s.OffPick < 0 {
+			if a.recover && s.OffPick == -1 {
 				// a protocol-following client: recover from the last position it saw
 				if off, ep, ok := clientPos(); ok {
 					a.reqOffset, a.reqEpoch = off, ep
 					return a
 				}
 				s.OffPick = 0
+			}
+			if a.recover && s.OffPick == -2 {
+				a.reqOffset = 0
+				if top > uint64(s.OffBack) {
+					a.reqOffset = top - uint64(s.OffBack)
+				}
+				a.reqEpoch = curEpoch
+				return a
 			}
 			if a.recover {
 				a.reqOffset = uint64(s.OffPick) % (top + 3)
@@ -503,6 +581,12 @@ func vfC01Run(t *testing.T, cs vfC01Case, out *vfC01Out, isKnown func(string) bo
 		vfSettle()
 		time.Sleep(2 * time.Second)
 		vfSettle()
+		// Let the periodic position check run (it rides on the presence tick; ClientChannelPositionCheckDelay is 40 s):
+		// a subscription that lost a trailing publication is documented to be ended with insufficient state then.
+		for i := 0; i < 3; i++ {
+			time.Sleep(45 * time.Second)
+			vfSettle()
+		}
 
 		// ---- oracle over the subject's frames ----------------------------------------------------------------
 		frames := conn.Frames()
@@ -510,6 +594,7 @@ func vfC01Run(t *testing.T, cs vfC01Case, out *vfC01Out, isKnown func(string) bo
 		type segment struct {
 			unjudged bool
 			srvRecover bool // started by a Client.Subscribe push with RecoverSince
+			startFrame int
 			active bool
 			epoch  string
 			last   uint64
@@ -520,7 +605,15 @@ func vfC01Run(t *testing.T, cs vfC01Case, out *vfC01Out, isKnown func(string) bo
 		segments, delivered, outside, outOfOrderStarts := 0, 0, 0, 0
 		epochResetKey := ""
 		serverIdx := 0
-		endSeg := func() { seg.active = false }
+		type segSpan struct{ start, end int } // frame indices; end -1 = never ended
+		var spans []segSpan
+		curFrame := 0
+		endSeg := func() {
+			if seg.active && len(spans) > 0 && spans[len(spans)-1].end < 0 {
+				spans[len(spans)-1].end = curFrame
+			}
+			seg.active = false
+		}
 		clientTF := cs.ClientTF
 		if cs.Mode != 0 {
 			clientTF = nil
@@ -570,8 +663,10 @@ func vfC01Run(t *testing.T, cs vfC01Case, out *vfC01Out, isKnown func(string) bo
 				// re-subscribe in between is answered first. The order of start/end frames is property C10's
 				// subject; here the new start implicitly ends the previous segment.
 				outOfOrderStarts++
+				endSeg()
 			}
-			seg = segment{active: true}
+			seg = segment{active: true, startFrame: curFrame}
+			spans = append(spans, segSpan{start: curFrame, end: -1})
 			segments++
 			if a != nil && a.epochReset {
 				key := "C01:epoch-reset-inside-subscribe-window-merges-two-epochs"
@@ -612,6 +707,7 @@ func vfC01Run(t *testing.T, cs vfC01Case, out *vfC01Out, isKnown func(string) bo
 			}
 			r := f.Reply
 			var m string
+			curFrame = fi
 			switch {
 			case r.Connect != nil:
 				if res, ok := r.Connect.Subs[ch]; ok {
@@ -641,6 +737,16 @@ func vfC01Run(t *testing.T, cs vfC01Case, out *vfC01Out, isKnown func(string) bo
 					seg.srvRecover = true
 				}
 			case r.Push != nil && r.Push.Channel == ch && r.Push.Unsubscribe != nil:
+				// The only server-initiated ends in this world: insufficient state (client-side subscriptions, 2500) and
+				// the harness's own Client.Unsubscribe of a server-side subscription (2000; its insufficient state is a
+				// disconnect). A client told "unsubscribed by the server" instead of "insufficient state" does not resubscribe.
+				want := uint32(2500)
+				if cs.Mode != 0 {
+					want = 2000
+				}
+				if r.Push.Unsubscribe.Code != want {
+					m = fmt.Sprintf("subscription ended with unsubscribe code %d, expected %d (frame %d)", r.Push.Unsubscribe.Code, want, fi)
+				}
 				endSeg()
 			case r.Push != nil && r.Push.Disconnect != nil:
 				endSeg()
@@ -662,7 +768,56 @@ func vfC01Run(t *testing.T, cs vfC01Case, out *vfC01Out, isKnown func(string) bo
 				return epochResetKey + m + "; frames: " + rendered
 			}
 		}
-		if closed, _ := conn.T.Closed(); closed {
+		closedAtEnd, _ := conn.T.Closed()
+		delMu.Lock()
+		dels := append([]nodeDelivery(nil), deliveries...)
+		delMu.Unlock()
+		visible := func(nd nodeDelivery) bool {
+			rec, ok := byKey[fmt.Sprintf("%s/%d", nd.epoch, nd.off)]
+			return ok && cs.ServerTF.Match(rec.Tags) && clientTF.Match(rec.Tags)
+		}
+		if seg.active && !seg.unjudged && !seg.srvRecover && seg.epoch != "" && !closedAtEnd {
+			// "If the server cannot guarantee this ... it ends the subscription": a subscription that is still alive at the
+			// end must have been given every publication that reached this node after its start frame was written - the
+			// server either delivers it, or (gap, other epoch) ends the subscription; silently dropping it is neither.
+			for _, nd := range dels {
+				if nd.frames <= seg.startFrame || !visible(nd) {
+					continue
+				}
+				if nd.epoch != seg.epoch || nd.off > seg.last {
+					out.labels = append(out.labels, "stuck_subscription")
+					return fmt.Sprintf("subscription is still active at the end (last delivered offset %d, epoch %s) although publication offset %d epoch %s reached this node after the subscription had started (%d frames written then, start frame %d): it was neither delivered nor answered with an insufficient-state end; frames: %s",
+						seg.last, seg.epoch, nd.off, nd.epoch, nd.frames, seg.startFrame, rendered)
+				}
+			}
+			out.labels = append(out.labels, "alive_at_end_holds_everything_delivered_to_the_node")
+			// ... and after the periodic position checks of the final phase it must hold the stream top: a trailing loss
+			// (dropped delivery, publication lost inside the subscribe window) is something the server can detect.
+			if curEpoch != "" && curEpoch != seg.epoch {
+				return fmt.Sprintf("subscription is still active after the final position checks although the stream epoch changed from %s to %s; frames: %s", seg.epoch, curEpoch, rendered)
+			}
+			for _, rec := range pubs {
+				if rec.Epoch == seg.epoch && rec.Off > seg.last && cs.ServerTF.Match(rec.Tags) && clientTF.Match(rec.Tags) {
+					return fmt.Sprintf("subscription is still active after the final position checks although it never received offset %d (last delivered %d, stream top %d); frames: %s", rec.Off, seg.last, top, rendered)
+				}
+			}
+			out.labels = append(out.labels, "alive_after_position_checks_holds_stream_top")
+		}
+		if cs.MaxLagSec > 0 && !closedAtEnd {
+			for _, nd := range dels {
+				if nd.inflight || nd.lagMs <= int64(cs.MaxLagSec)*1000 || !visible(nd) {
+					continue
+				}
+				out.labels = append(out.labels, "delivery_lag_exceeded")
+				for _, sp := range spans {
+					if sp.start < nd.frames && sp.end < 0 {
+						return fmt.Sprintf("publication offset %d reached this node %d ms after it was published (ClientChannelPositionMaxTimeLag %ds) while the subscription started at frame %d was established, yet the subscription was never ended; frames: %s",
+							nd.off, nd.lagMs, cs.MaxLagSec, sp.start, rendered)
+					}
+				}
+			}
+		}
+		if closedAtEnd {
 			out.labels = append(out.labels, "connection_closed")
 		}
 		if bufferedDuringSub > 0 || faults > 0 || trimOrReset {
